@@ -2,7 +2,7 @@
 bodies are indexed by (file, offset) and json-parsed only when asked for."""
 import json, os, re, pickle
 
-_PFX = re.compile(rb'^\{"rec":"fn","d":"((?:[^"\\]|\\.)*)","u":"((?:[^"\\]|\\.)*)","k":"([a-z_]+)","file":"((?:[^"\\]|\\.)*)","line":(\d+)')
+_PFX_UNUSED = re.compile(rb'^\{"rec":"fn","d":"((?:[^"\\]|\\.)*)","u":"((?:[^"\\]|\\.)*)","k":"([a-z_]+)","file":"((?:[^"\\]|\\.)*)","line":(\d+)')
 
 
 class Facts:
@@ -13,17 +13,17 @@ class Facts:
         self.traits = {}    # path -> rec
         self.impls = []     # recs
         self.fn_index = {}  # d -> list of (file, off, len, u, k, srcfile, line)
-        self.by_u = {}      # (crate,u) -> same tuple
+        self.callers = {}   # callee name -> [caller d]
         self._cache = {}
         idx = os.path.join(d, 'index.pkl')
         if os.path.exists(idx):
             with open(idx, 'rb') as f:
-                (self.crates, self.adts, self.traits, self.impls, self.fn_index) = pickle.load(f)
+                (self.crates, self.adts, self.traits, self.impls, self.fn_index, self.callers) = pickle.load(f)
         else:
             self._build()
             tmp = idx + '.%d' % os.getpid()
             with open(tmp, 'wb') as f:
-                pickle.dump((self.crates, self.adts, self.traits, self.impls, self.fn_index), f)
+                pickle.dump((self.crates, self.adts, self.traits, self.impls, self.fn_index, self.callers), f)
             os.replace(tmp, idx)
 
     def _build(self):
@@ -37,12 +37,13 @@ class Facts:
                 for line in f:
                     n = len(line)
                     if line.startswith(b'{"rec":"fn"'):
-                        m = _PFX.match(line)
-                        d = json.loads(b'"' + m.group(1) + b'"')
-                        u = json.loads(b'"' + m.group(2) + b'"')
-                        src = json.loads(b'"' + m.group(4) + b'"')
+                        k = line.index(b',"argc":')
+                        h = json.loads(line[:k] + b'}')
+                        d = h['d']
                         self.fn_index.setdefault(d, []).append(
-                            (fn, off, n, u, m.group(3).decode(), src, int(m.group(5)), crate))
+                            (fn, off, n, h['u'], h['k'], h['file'], h['line'], crate, tuple(h['sig'])))
+                        for c in h['callees']:
+                            self.callers.setdefault(c, []).append(d)
                     else:
                         r = json.loads(line)
                         k = r['rec']
@@ -54,7 +55,9 @@ class Facts:
                             self.crates[crate] = {'file': fn}
                         elif k == 'adt':
                             r['crate'] = crate
-                            self.adts[r['path']] = r
+                            old = self.adts.get(r['path'])
+                            if old is None or (old.get('ext') and not r.get('ext')):
+                                self.adts[r['path']] = r
                         elif k == 'trait':
                             r['crate'] = crate
                             self.traits[r['path']] = r
@@ -112,3 +115,10 @@ class Facts:
     def loc(self, fnrec, line=None):
         f = fnrec['file']
         return '%s:%d' % (f, line if line else fnrec['line'])
+
+    def sig(self, d, which=0):
+        e = self.fn_index.get(d)
+        return e[which][8] if e else None
+
+    def callers_of(self, callee):
+        return sorted(set(self.callers.get(callee, [])))
